@@ -112,6 +112,39 @@ class CallClass(object):
     return ('callclass', cls.__name__, a - b)
 
 
+class Meta(type):
+
+  def __call__(cls, a, b=2):
+    LOG.append(('Meta.__call__', cls.__name__, a, b))
+    if a > 0:
+      return ('meta', cls.__name__, a + b)
+    return ('meta', cls.__name__, a - b)
+
+
+class WithMeta(metaclass=Meta):
+  pass
+
+
+class Slotted(object):
+  __slots__ = ('w',)          # no __weakref__: cannot be remembered by a weak cache
+
+  def __init__(self):
+    self.w = 4
+
+  def __call__(self, a, b=2):
+    LOG.append(('Slotted.__call__', self.w, a, b))
+    if a > 0:
+      return ('slotted', self.w + a)
+    return ('slotted', self.w - a)
+
+
+def free_method(self, a, b=2):
+  LOG.append(('free_method', self.w, a, b))
+  if a > 0:
+    return ('free', self.w + a + b)
+  return ('free', self.w - a - b)
+
+
 def gen(a, b=2):
   LOG.append(('gen', a, b))
   i = 0
@@ -347,6 +380,9 @@ def build_pool(lane, which):
   add('callable', 'callable_obj', c1, fnname='__call__')
   add('callstatic', 'callable_static', U.CallStatic(), fnname='__call__')
   add('callclass', 'callable_class', U.CallClass(), fnname='__call__')
+  add('metaclass_call', 'callable_obj', U.WithMeta, fnname='__call__')
+  add('slotted_callable', 'callable_obj', U.Slotted(), fnname='__call__')
+  add('manual_bound', 'function', types.MethodType(U.free_method, c1), fnname='free_method')
   add('class', 'constructor', U.C, argsets='ctor')
   add('nt_class', 'constructor', U.NT, argsets='nt')
   add('ntsub_class', 'constructor', U.NTSub, argsets='nt')
@@ -364,6 +400,20 @@ def build_pool(lane, which):
   add('partial_nested', 'partial',
       functools.partial(functools.partial(U.fn, 1, c=5, z=0), b=7, c=6), argsets='b_only',
       inner='function', fnname='fn')
+  # chains that functools does NOT flatten (inner partial carries attributes / is a subclass):
+  # the call wrapper has to unwrap them link by link
+  inner = functools.partial(U.fn, 1, c=5, z=0)
+  functools.update_wrapper(inner, U.fn)
+  add('partial_chain', 'partial', functools.partial(inner, b=7, c=6), argsets='b_only',
+      inner='function', fnname='fn')
+  inner3 = functools.partial(functools.partial(inner, c=8, y=1), b=2, z=3)
+  functools.update_wrapper(inner3.func, U.fn)
+  add('partial_chain3', 'partial', inner3, argsets='b_only', inner='function', fnname='fn')
+
+  class SubPartial(functools.partial):
+    pass
+  add('partial_subclass', 'partial', functools.partial(SubPartial(c1.meth, b=9), 4), argsets='b_only',
+      inner='function', fnname='meth')
   add('partial_method', 'partial', functools.partial(c1.meth, 1), argsets='b_only',
       inner='function', fnname='meth')
   add('partial_builtin', 'partial', functools.partial(max, 3), argsets='max', inner='builtin')
@@ -452,11 +502,21 @@ def init_zygote(lane):
     if t.argsets == 'self_a':
       t.argsets = [(('@self', 1), None), (('@self', -1, 5), None), (('@self',), {'a': 2}), ((), None)]
       t.remember_exempt = False
+    import weakref
+    key_obj = obj
+    while isinstance(key_obj, functools.partial):
+      key_obj = key_obj.func
+    key_obj = getattr(key_obj, '__func__', key_obj)
+    try:
+      weakref.ref(key_obj)
+    except TypeError:
+      t.remember_exempt = True      # documented: such entities cannot be remembered
     targets[name] = t
     t_self = (self_a, self_b)
     if self_a is not None:
       Z.setdefault('selfs', {})[name] = t_self
   Z['targets'] = targets
+  Z['exempt_ids'] = set(_rem_id(t.a) for t in targets.values() if t.remember_exempt)
   Z['A'], Z['B'] = A, B
   feats = tuple(getattr(malt.experimental.Feature, f) for f in FEATSETS[-1])
   with common.World():
@@ -554,8 +614,12 @@ def _gen_fault(rng, tier):
   r = rng.random()
   if r < 0.8:
     exc = rng.choice(faults.EXC_QUICK if tier == 'quick' and rng.random() < 0.6 else faults.EXC_MENU)
-    return {'kind': 'stage-exc', 'point': rng.choice(Z['points']), 'nth': rng.choice([1, 1, 1, 2, 3]),
-            'when': rng.choice(['entry', 'exit']), 'exc': exc}
+    f = {'kind': 'stage-exc', 'point': rng.choice(Z['points']), 'nth': rng.choice([1, 1, 1, 2, 3]),
+         'when': rng.choice(['entry', 'exit']), 'exc': exc}
+    if rng.random() < 0.25:
+      f['conv_k'] = rng.choice([2, 2, 3])     # a callee's conversion, nested in a converted caller
+      f['nth'] = 1
+    return f
   if r < 0.87:
     return {'kind': 'src-gone'}
   if r < 0.94:
@@ -563,8 +627,9 @@ def _gen_fault(rng, tier):
   return {'kind': 'disk-full', 'budget': rng.choice([0, 10, 200, 1000])}
 
 
-CONVERTIBLE = ['fn', 'lam', 'nested', 'bound', 'unbound', 'cmeth', 'cmeth_inst', 'smeth', 'callable',
+CONVERTIBLE = ['caller', 'caller', 'metaclass_call', 'slotted_callable', 'manual_bound', 'fn', 'lam', 'nested', 'bound', 'unbound', 'cmeth', 'cmeth_inst', 'smeth', 'callable',
                'decorated', 'caller', 'raiser', 'partial1', 'partial_nested', 'partial_method',
+               'partial_chain', 'partial_chain3', 'partial_subclass',
                'mod:malty', 'mod:numpy_like', 'mod:reporting', 'mod:copyx', 'np_sub_overridden',
                'forelse']
 
@@ -744,7 +809,8 @@ class Run(object):
     if fault is not None:
       self.stats['faults_armed'] += 1
       if fault['kind'] == 'stage-exc':
-        armed = faults.Fault(fault['point'], fault['nth'], fault['when'], fault['exc'])
+        armed = faults.Fault(fault['point'], fault['nth'], fault['when'], fault['exc'],
+                             conv_k=fault.get('conv_k'))
         self.inj.arm(armed)
       else:
         undo = self._apply_env_fault(fault, t)
@@ -808,7 +874,8 @@ class Run(object):
     was_remembered = rem_key in self.remembered
     # whatever the call wrapper fell back on in this op is remembered from now on
     for fid_, otup, _ in fallbacks:
-      self.remembered.setdefault((fid_, otup), i)
+      if fid_ not in Z['exempt_ids']:
+        self.remembered.setdefault((fid_, otup), i)
     # ---- T5 strict ------------------------------------------------------------------
     if op.get('strict') and fired:
       self.stats['strict_raises'] += 1
@@ -897,7 +964,8 @@ class Run(object):
 
 def _fault_str(f):
   if f['kind'] == 'stage-exc':
-    return '%s@%s#%d:%s' % (f['point'].split(':')[1], f['when'], f['nth'], f['exc'])
+    return '%s@%s#%d%s:%s' % (f['point'].split(':')[1], f['when'], f['nth'],
+                              '/conv%d' % f['conv_k'] if f.get('conv_k') else '', f['exc'])
   return f['kind']
 
 
